@@ -293,7 +293,8 @@ def check_comparisons(rep: Report, prog: Program, resolver: Resolver, rid: str) 
                               f"the recursive comparison is between {a.value()!r} and {b.value()!r}, not the operands' "
                               "physical values", fi.where(e.node))
             if n < 2:
-                raise AnalysisError(f"{qual}: expected a same-unit magnitude comparison and a converted comparison, found {n}")
+                # fewer magnitude comparisons than the two arms need: the verdict rule below says what is returned instead
+                rep.defer(AnalysisError(f"{qual}: expected a same-unit magnitude comparison and a converted comparison, found {n}"))
             # the verdict itself: every boolean the method returns for two quantities of one dimension is the
             # result of one of those exact comparisons - not a constant, a tolerance test or anything else
             cmp_texts = {ast.unparse(e.node) for e in cmps}
